@@ -7,7 +7,7 @@
    manifest is written.  The commit set (which histories write) is C08_commit_set: exactly the histories that received
    records or have a child that wrote; that the session holds records for exactly the histories in scope (folder mode:
    every non-ignored history; -sf: those on the path to the named files) is carried by the lockstep correspondence. *)
-From MHL Require Import Model.Commands Proofs.BaseFacts Proofs.RouteFacts Proofs.CommitFacts Proofs.LoadFacts Proofs.CommitSetFacts Proofs.TreeFacts.
+From MHL Require Import Model.Commands Proofs.BaseFacts Proofs.RouteFacts Proofs.CommitFacts Proofs.LoadFacts Proofs.CommitSetFacts Proofs.TreeFacts Proofs.PartitionFacts.
 
 Theorem C08_deepest_history : forall hs root_h p, good p root_h ->
   good p (route hs root_h p) /\ (route hs root_h p = root_h \/ In (route hs root_h p) hs) /\
@@ -77,6 +77,17 @@ Print Assumptions C08_commit_set.
 Theorem C08_distinct_roots : forall C cdig t hs, wf_tree C t -> load C cdig t = inl hs -> NoDup (map lh_root hs).
 Proof. exact load_roots_NoDup. Qed.
 Print Assumptions C08_distinct_roots.
+
+(* THE PARTITION, for any list of loaded histories and any nesting: after the traversal the session holds, for every
+   history root k, records at exactly (a) the k-relative paths of the entries whose target history is k -- `target p` is
+   the root of the history p is routed to (the deepest one containing it, C08_deepest_history) and p's path relative to
+   it -- and (b) for a folder that is itself the root of a history whose parent history is k, that folder's path relative
+   to k (the nested root appears in its parent as a directory entry); and nothing else. *)
+Theorem C08_session_partition : forall Hb matches C hs fmts no_dh spec t, fmts <> [] -> forall evs s f k q,
+  In q (rp (fst (fold_left (process_event Hb matches C hs fmts no_dh spec t) evs (s, f))) k) <->
+  In q (rp s k) \/ exists e, In e evs /\ ev_adds hs e k q.
+Proof. exact session_partition. Qed.
+Print Assumptions C08_session_partition.
 
 (* non-vacuity: routing between "A" and "AB" *)
 Definition hA := mkLhist [[65%N]] (Some []) [] [] true.
